@@ -31,7 +31,9 @@ func New(timeout time.Duration, args ...string) *P {
 func (p *P) start() error {
 	cmd := exec.Command(p.Args[0], p.Args[1:]...)
 	cmd.Env = append(os.Environ(), p.Env...)
-	cmd.Stderr = os.Stderr
+	if os.Getenv("VERIF_DEBUG") != "" {
+		cmd.Stderr = os.Stderr
+	}
 	in, err := cmd.StdinPipe()
 	if err != nil {
 		return err
